@@ -57,7 +57,7 @@ class CertInfo:
     readable: bool            # does cryptography.x509 parse it?
 
 
-def _make_cert(kind: str, d: str, tag: str, hostile: bool = False) -> CertInfo:
+def _make_cert(kind: str, d: str, tag: str, hostile: bool = False, validity: str = "valid") -> CertInfo:
     from cryptography import x509
     from cryptography.hazmat.primitives import hashes, serialization
     from cryptography.hazmat.primitives.asymmetric import ec, ed25519, rsa
@@ -71,9 +71,11 @@ def _make_cert(kind: str, d: str, tag: str, hostile: bool = False) -> CertInfo:
         key = ed25519.Ed25519PrivateKey.generate()
     name = x509.Name([x509.NameAttribute(NameOID.COMMON_NAME, "localhost")])
     now = datetime.datetime.now(datetime.timezone.utc)
+    # validity period: TLS with CERT_NONE (the TOFU mode) does not look at it; the pin check must not depend on it either
+    nb, na = {"valid": (-1, 30), "expired": (-400, -30), "notyet": (30, 400)}[validity]
     b = (x509.CertificateBuilder().subject_name(name).issuer_name(name).public_key(key.public_key())
-         .serial_number(x509.random_serial_number()).not_valid_before(now - datetime.timedelta(days=1))
-         .not_valid_after(now + datetime.timedelta(days=30))
+         .serial_number(x509.random_serial_number()).not_valid_before(now + datetime.timedelta(days=nb))
+         .not_valid_after(now + datetime.timedelta(days=na))
          .add_extension(x509.BasicConstraints(ca=True, path_length=None), critical=True))
     cert = b.sign(key, None if kind == "ed" else hashes.SHA256())
     der = cert.public_bytes(serialization.Encoding.DER)
@@ -92,19 +94,24 @@ def _make_cert(kind: str, d: str, tag: str, hostile: bool = False) -> CertInfo:
     return CertInfo(tag, cp, kp, der, "sha256:" + hashlib.sha256(der).hexdigest(), readable)
 
 
+ALL_CERTS = ("rsa", "ec", "ed", "hostile", "expired", "notyet")
+
+
 class CertStore:
-    """The four certificates of DESIGN.md §5 C03: RSA, EC, Ed25519 and the hostile one."""
+    """The certificates of DESIGN.md §5 C03: RSA, EC, Ed25519, the hostile one (DER the X.509 parser rejects),
+    plus one that has expired and one that is not valid yet."""
 
-    KINDS = {"rsa": ("rsa", False), "ec": ("ec", False), "ed": ("ed", False), "hostile": ("ec", True), "ec2": ("ec", False)}
+    KINDS = {"rsa": ("rsa", False, "valid"), "ec": ("ec", False, "valid"), "ed": ("ed", False, "valid"), "hostile": ("ec", True, "valid"),
+             "ec2": ("ec", False, "valid"), "expired": ("ec", False, "expired"), "notyet": ("rsa", False, "notyet")}
 
-    def __init__(self, names=("rsa", "ec", "ed", "hostile")):
+    def __init__(self, names=ALL_CERTS):
         d = tempfile.mkdtemp(prefix="nv-certs-")
         try:
             self.certs: dict[str, CertInfo] = {}
             self._ctx: dict[str, ssl.SSLContext] = {}
             for n in names:
-                kind, hostile = self.KINDS[n]
-                self.certs[n] = _make_cert(kind, d, n, hostile)
+                kind, hostile, validity = self.KINDS[n]
+                self.certs[n] = _make_cert(kind, d, n, hostile, validity)
                 c = ssl.SSLContext(ssl.PROTOCOL_TLS_SERVER)
                 c.minimum_version = ssl.TLSVersion.TLSv1_2
                 c.num_tickets = 0   # no post-handshake records: the peer's byte log is application data only
@@ -378,7 +385,7 @@ def broken_cert_loader(mode: str):
 _WORLD: dict = {}
 
 
-def world(n_peers: int = 2, cert_names=("rsa", "ec", "ed", "hostile")):
+def world(n_peers: int = 2, cert_names=ALL_CERTS):
     """certificates + `n_peers` scripted peers, created once per process (after the fork)."""
     key = (os.getpid(), n_peers, tuple(cert_names))
     w = _WORLD.get(key)
